@@ -15,7 +15,7 @@ EXPLANATION = (
     "variant, and poll_connection_error reads the cell after registering the waker on every path to Pending (no lost "
     "wake-up for any interleaving). Trusted: semantics of OnceLock and AtomicWaker."
     " C05-b also reads the converter itself as a table: Internal -> Local{Application{that error's code and reason}}, transport Timeout -> Timeout, any other transport error -> Remote(the same error).")
-RULES = "C05-a write-once cell (A12/A10); C05-b first error wins, converter keeps code/reason/peer error (A4/A10/A3); C05-c closed once with that code (A10/A4/A2); C05-d driver stickiness (A2); C05-e store-then-wake / register-then-check (A2); raw close helpers only during connection setup (C05-c)"
+RULES = "C05-a write-once cell (A12/A10); C05-b first error wins, converter keeps code/reason/peer error (A4/A10/A3); C05-c closed once with that code, both closing rows of close_if_needed exist (A10/A4/A2/A3); C05-d driver stickiness (A2); C05-e store-then-wake / register-then-check (A2); raw close helpers only during connection setup (C05-c)"
 
 CS = "h3::shared_state::ConnectionState::"
 CI = "h3::connection::ConnectionInner::"
